@@ -41,6 +41,8 @@ func runC04(c *Ctx) {
 	// witnessed (so the next commit sorts after it) and what is pulled is what the cache serves
 	checkWitnessAll(c, "R5.3")
 	checkCacheMergeFold(c, "R2.6")
+	// what was written is read back: read refuses nothing but the documented contradictions, merge commits are exempt from the hop limit (shared with C03)
+	checkReadGuards(c)
 	// "it passes validation there": the keys a pack is verified with are those in force at its own edit time (shared with C08)
 	runC08(c)
 }
@@ -710,6 +712,13 @@ func checkFilesTravel(c *Ctx) {
 		}
 	}
 	c.Check(okMk, "R4.4", "operationPack.makeExtraTree:all-operations", w.FnPos(mk), "collects GetFiles of every operation of the pack", "makeExtraTree does not collect the files of every operation")
+	{
+		var exits []string
+		for _, e := range earlyLoopExitsNoFail(mk) {
+			exits = append(exits, w.InstrPos(e.From.Instrs[len(e.From.Instrs)-1]))
+		}
+		c.Check(len(exits) == 0, "R4.4", "operationPack.makeExtraTree:every-file-visited", w.FnPos(mk), "no loop over operations or files is left before its end", "a loop of makeExtraTree is left early at "+strings.Join(exits, ", ")+": the files listed after that point (a hash repeated before a new one, say) are not referenced by the commit — the operation is recorded, but the blob is unreachable, is not pushed and is collected by git gc")
+	}
 	// every Hash stored in the entries comes from GetFiles
 	okEntries := false
 	for _, b := range mk.Blocks {
